@@ -12,6 +12,8 @@
 //       strict brotli-decompressor created with new_strict (no large window) returns the input
 //       g      Google libbrotlidec without BROTLI_DECODER_PARAM_LARGE_WINDOW returns the input
 //       glw    Google libbrotlidec with the large-window parameter returns the input
+//   H <same fields as E> <script> <outchunk>
+//       the same through a call history (see run_history): f p m<k> t d<k> items or W (CompressorWriter)
 //   B <n>    encode_base_128 is private; the magic block is the only way to observe it:
 //            answer = hex of the size-hint bytes of a stream made with hint n (D, quality 5, magic on)
 #![allow(deprecated)]
@@ -183,6 +185,104 @@ fn run_rust(c: &Cfg, input: &[u8]) -> Result<Vec<u8>, String> {
         }
         if s.is_finished() {
             break;
+        }
+    }
+    brotli::enc::encode::BrotliEncoderDestroyInstance(&mut s);
+    Ok(out)
+}
+
+/// One configuration driven through a call HISTORY before (and while) the data is given:
+/// script items separated by ',':  f = FLUSH without input, p = PROCESS without input,
+/// m<k> = EMIT_METADATA with k bytes, t = take_output (everything pending), d<k> = PROCESS with the
+/// next k input bytes, W = use CompressorWriter (flush() first, then write_all, then into_inner);
+/// the history always ends with FINISH on the rest of the input.  `outchunk` = output bytes
+/// offered per call (0 = 64 KiB).
+fn run_history(c: &Cfg, input: &[u8], script: &str, outchunk: usize) -> Result<Vec<u8>, String> {
+    if script == "W" {
+        use std::io::Write;
+        let mut params = brotli::enc::BrotliEncoderParams::default();
+        params.quality = c.q;
+        params.lgwin = c.lgwin;
+        params.large_window = c.lw;
+        params.catable = c.cat;
+        params.appendable = c.app;
+        params.use_dictionary = c.dict;
+        params.magic_number = c.magic;
+        params.size_hint = c.hint as usize;
+        let buf_size = if outchunk == 0 { 4096 } else { outchunk };
+        let mut w = brotli::CompressorWriter::with_params(Vec::<u8>::new(), buf_size, &params);
+        w.flush().map_err(|e| format!("flush: {}", e))?;
+        w.write_all(input).map_err(|e| format!("write: {}", e))?;
+        return Ok(w.into_inner());
+    }
+    let mut s = BrotliEncoderStateStruct::new(StandardAlloc::default());
+    s.params.quality = c.q;
+    s.params.lgwin = c.lgwin;
+    s.params.large_window = c.lw;
+    s.params.catable = c.cat;
+    s.params.appendable = c.app;
+    s.params.use_dictionary = c.dict;
+    s.params.magic_number = c.magic;
+    s.params.size_hint = c.hint as usize;
+    let mut out: Vec<u8> = Vec::new();
+    let cap = if outchunk == 0 { 1 << 16 } else { outchunk };
+    let mut buf = vec![0u8; cap];
+    let mut nop = |_a: &mut brotli::interface::PredictionModeContextMap<brotli::InputReferenceMut>,
+                   _b: &mut [brotli::interface::StaticCommand],
+                   _c: brotli::interface::InputPair,
+                   _d: &mut StandardAlloc| ();
+    let meta: Vec<u8> = (0..64u8).map(|x| x ^ 0x5a).collect();
+    let mut pos = 0usize;
+    let mut items: Vec<String> = script.split(',').filter(|x| !x.is_empty() && *x != "-").map(|x| x.to_string()).collect();
+    items.push("F".to_string());
+    let mut steps = 0usize;
+    for it in items.iter() {
+        let kind = it.chars().next().unwrap();
+        let arg: usize = it[1..].parse().unwrap_or(0);
+        if kind == 't' {
+            let mut size = 0usize;
+            let o = s.take_output(&mut size).to_vec();
+            out.extend_from_slice(&o[..size]);
+            continue;
+        }
+        let (op, data): (BrotliEncoderOperation, &[u8]) = match kind {
+            'f' => (BrotliEncoderOperation::BROTLI_OPERATION_FLUSH, &[]),
+            'p' => (BrotliEncoderOperation::BROTLI_OPERATION_PROCESS, &[]),
+            'm' => (BrotliEncoderOperation::BROTLI_OPERATION_EMIT_METADATA, &meta[..core::cmp::min(arg, 64)]),
+            'd' => {
+                let k = core::cmp::min(arg, input.len() - pos);
+                let d = &input[pos..pos + k];
+                pos += k;
+                (BrotliEncoderOperation::BROTLI_OPERATION_PROCESS, d)
+            }
+            _ => {
+                let d = &input[pos..];
+                pos = input.len();
+                (BrotliEncoderOperation::BROTLI_OPERATION_FINISH, d)
+            }
+        };
+        let mut avail_in = data.len();
+        let mut in_off = 0usize;
+        loop {
+            steps += 1;
+            if steps > STEP_LIMIT {
+                return Err("NONTERM".to_string());
+            }
+            let mut avail_out = cap;
+            let mut out_off = 0usize;
+            let mut total = None;
+            let r = s.compress_stream(op, &mut avail_in, data, &mut in_off, &mut avail_out, &mut buf[..], &mut out_off, &mut total, &mut nop);
+            out.extend_from_slice(&buf[..out_off]);
+            if !r {
+                return Err(format!("STREAM-FALSE({})", it));
+            }
+            let done = match kind {
+                'F' => s.is_finished(),
+                _ => avail_in == 0 && !s.has_more_output(),
+            };
+            if done {
+                break;
+            }
         }
     }
     brotli::enc::encode::BrotliEncoderDestroyInstance(&mut s);
@@ -368,6 +468,12 @@ fn parse_cfg(t: &[&str]) -> Option<(Cfg, Vec<u8>)> {
 }
 
 fn f_encode(t: &[&str]) -> String {
+    // H lines carry two more fields: the call history and the output chunk size
+    let (history, t) = if t[0] == "H" && t.len() == 13 {
+        (Some((t[11].to_string(), t[12].parse::<usize>().unwrap_or(0))), &t[..11])
+    } else {
+        (None, t)
+    };
     let (c, input) = match parse_cfg(t) {
         Some(x) => x,
         None => return "BADREQ".to_string(),
@@ -375,7 +481,9 @@ fn f_encode(t: &[&str]) -> String {
     let c2 = c.clone();
     let inp = input.clone();
     let r = guarded(std::panic::AssertUnwindSafe(move || {
-        if c2.via == 'F' {
+        if let Some((script, outchunk)) = history {
+            run_history(&c2, &inp, &script, outchunk)
+        } else if c2.via == 'F' {
             run_ffi(&c2, &inp)
         } else {
             run_rust(&c2, &inp)
@@ -470,7 +578,7 @@ fn serve_clean<F: FnMut(&[&str]) -> String>(mut f: F) {
 fn main() {
     quiet_panics();
     serve_clean(|t| match t[0] {
-        "E" => f_encode(t),
+        "E" | "H" => f_encode(t),
         "B" => match t.get(1).and_then(|x| x.parse::<u64>().ok()) {
             Some(n) => f_base128(n),
             None => "BADREQ".to_string(),
